@@ -137,6 +137,7 @@ func (c ctx) checkRead(id, class string, v mode.Variant, want [][]byte, stream [
 
 func main() {
 	run := vr.New("C08", "exploration")
+	defer run.Recover()
 	freepass.MaybeReplay(run)
 	c := ctx{run}
 	run.Rule("write side: every message length in {0,4,..,520} u {1016,1020,1024,65536,2^20} and every sequence of <=3 lengths over {0,4,504,508,512,1024}, both modes, against a reference framer; every sequence of <=3 write/read operations over lengths {4,508,1024,262144} on one mode object (both directions share it); read side through the real tcpConn read path (CancelableReader, io.ReadFull) over a reader whose chunking is enumerated: every composition of streams up to N bytes, every single cut, every pair of cuts within 8 bytes of a frame boundary, byte-at-a-time and all-at-once for longer ones; 4-byte error frames; end of stream at every byte; non-trivial = a read case with at least one cut")
